@@ -778,6 +778,404 @@ theorem fields_assigned (p : Program) (fuel : Nat) (ihf : StFieldsU p fuel) {fr 
   · rw [lookup_eraseFields, hframe tf.name hnd'.1, hself]
     rfl
 
+/-- what `fieldCont` does with the handed value `a`, given that the field conversion is sound on `a` -/
+theorem fieldCont_sound (p : Program) (fuel : Nat) (ihf : StFieldsU p fuel) {fr : Frame} {rest : FieldPlans}
+    {s : Ty} {tfs' : List (FieldInfo × Ty)} {tf : FieldInfo} {tty sty : Ty} {src : Val} {fs cur orig : List (S × Val)}
+    {a : Val} {n2 : Nat} {v' : Val} {n' : Nat} {pe : Bool} {cv : Conv} {z : ZeroCheck}
+    (hrest : HasFieldsU p rest s tfs')
+    (hwt : WT p.conv.env (.struct fs) s)
+    (hsrc : src = .struct fs ∨ ((∃ l, src = .ptr l (.struct fs)) ∧ noWholeSource rest = true))
+    (hnd : (fieldNames ((tf, tty) :: tfs')).Nodup)
+    (hold : ∀ name x f ty, cur.lookup name = some x →
+      ((tf, tty) :: tfs').find? (fun (y : FieldInfo × Ty) => y.1.name == name) = some (f, ty) → OldOK p.conv.env x ty)
+    (hag : ∀ name, name ∈ fieldNames ((tf, tty) :: tfs') → cur.lookup name = orig.lookup name)
+    (hconv : ∀ (fr' : Frame) (nv : Val) (n1 : Nat),
+      evalConv p fuel fr' cv a ((cur.lookup tf.name).getD .nil) n2 = .ok (nv, n1) →
+      ImgOnto p.conv.env (CtorSig p) sty tty a (erase ((cur.lookup tf.name).getD .nil)) (erase nv))
+    (hev : fieldCont p fuel fr rest src (.struct cur) tf.name pe cv z (a, n2) = .ok (v', n')) :
+    ∃ ws, v' = .struct ws ∧ (∀ name, name ∉ fieldNames ((tf, tty) :: tfs') → ws.lookup name = cur.lookup name) ∧
+      ImgFieldsOnto p.conv.env (CtorSig p) (modesOf rest) s (.struct fs) tfs' (erase.eraseFields orig) (erase.eraseFields ws) ∧
+      ((z = .check ∧ isZeroVal a = true ∧
+          (erase.eraseFields ws).lookup tf.name = (erase.eraseFields orig).lookup tf.name) ∨
+       ((z = .none ∨ isZeroVal a = false) ∧ ∃ y, (erase.eraseFields ws).lookup tf.name = some y ∧
+          ImgOnto p.conv.env (CtorSig p) sty tty a (((erase.eraseFields orig).lookup tf.name).getD .nil) y)) := by
+  unfold fieldCont at hev
+  have habs : (Val.struct cur).isAbsent = false := rfl
+  have hlook : fieldOf (.struct cur) tf.name = cur.lookup tf.name := rfl
+  simp only [habs, hlook, Bool.false_and, if_false, Bool.false_eq_true] at hev
+  have horig : (erase.eraseFields orig).lookup tf.name = (cur.lookup tf.name).map erase := by
+    rw [lookup_eraseFields, hag tf.name (by simp [fieldNames])]
+  have holdE : ((erase.eraseFields orig).lookup tf.name).getD .nil = erase ((cur.lookup tf.name).getD .nil) := by
+    rw [horig]
+    cases cur.lookup tf.name <;> rfl
+  have assigned : ∀ (fr' : Frame) (nv : Val) (n1 : Nat),
+      evalConv p fuel fr' cv a ((cur.lookup tf.name).getD .nil) n2 = .ok (nv, n1) →
+      evalFields p fuel fr rest src (setField (.struct cur) tf.name nv) n1 = .ok (v', n') →
+      ∃ ws, v' = .struct ws ∧ (∀ name, name ∉ fieldNames ((tf, tty) :: tfs') → ws.lookup name = cur.lookup name) ∧
+        ImgFieldsOnto p.conv.env (CtorSig p) (modesOf rest) s (.struct fs) tfs' (erase.eraseFields orig) (erase.eraseFields ws) ∧
+        ∃ y, (erase.eraseFields ws).lookup tf.name = some y ∧
+          ImgOnto p.conv.env (CtorSig p) sty tty a (((erase.eraseFields orig).lookup tf.name).getD .nil) y := by
+    intro fr' nv n1 hc hev'
+    have himg := hconv fr' nv n1 hc
+    obtain ⟨ws, hv', hframe, hself, hrestImg⟩ := fields_assigned p fuel ihf hrest hwt hsrc hnd hold hag hev'
+    exact ⟨ws, hv', hframe, hrestImg, erase nv, hself, by rw [holdE]; exact himg⟩
+  cases z with
+  | none =>
+    have hz : (ZeroCheck.none == ZeroCheck.check) = false := by decide
+    simp only [hz, Bool.false_and, if_false, Bool.false_eq_true] at hev
+    split at hev
+    · rename_i nv n1 hc
+      obtain ⟨ws, hv', hframe, hrestImg, hy⟩ := assigned _ nv n1 hc hev
+      exact ⟨ws, hv', hframe, hrestImg, .inr ⟨.inl rfl, hy⟩⟩
+    · cases hev
+    · cases hev
+    · cases hev
+  | check =>
+    have hz : (ZeroCheck.check == ZeroCheck.check) = true := by decide
+    simp only [hz, Bool.true_and] at hev
+    cases hzv : isZeroVal a with
+    | true =>
+      simp only [hzv, if_true] at hev
+      obtain ⟨ws, hv', hframe, hkeep, himg⟩ := fields_kept p fuel ihf hrest hwt hsrc hnd hold hag hev
+      exact ⟨ws, hv', hframe, himg, .inl ⟨rfl, rfl, hkeep⟩⟩
+    | false =>
+      simp only [hzv, Bool.false_eq_true, if_false] at hev
+      split at hev
+      · rename_i nv n1 hc
+        obtain ⟨ws, hv', hframe, hrestImg, hy⟩ := assigned _ nv n1 hc hev
+        exact ⟨ws, hv', hframe, hrestImg, .inr ⟨.inr rfl, hy⟩⟩
+      · cases hev
+      · cases hev
+      · cases hev
+
+/-! #### a source method as the source of a field -/
+
+/-- the receiver of the method call: the value the path reached, read through a last (nil-guarded) pointer -/
+def recvStep (lastDeref : Bool) : Option Val → Outcome (Option Val)
+  | none => .ok none
+  | some rv =>
+    if lastDeref then
+      match rv with
+      | .nil => .ok none
+      | .ptr _ x => .ok (some x)
+      | _ => .stuck "viaMethod: pointer receiver expected"
+    else .ok (some rv)
+
+/-- the value handed to the field conversion after the method call -/
+def methodArg (guarded resIsPtr : Bool) (r : Val) (n1 : Nat) : Val × Nat :=
+  if guarded && !resIsPtr then (.ptr (.fresh n1) r, n1 + 1) else (r, n1)
+
+/-- the `viaMethod` clause of `evalFields` after the walk of the receiver path (the model's clause, as a definition) -/
+def viaCont (p : Program) (fuel : Nat) (fr : Frame) (rest : FieldPlans) (src old : Val) (target : S)
+    (lastDeref guarded : Bool) (call : Conv) (resIsPtr : Bool) (cv : Conv) (zero : ZeroCheck) (recv0? : Option Val) (n : Nat) :
+    Outcome (Val × Nat) :=
+  match recvStep lastDeref recv0? with
+  | .stuck w => .stuck w
+  | .err e => .err e
+  | .panic k => .panic k
+  | .ok none =>
+    let oldF := if old.isAbsent then Val.absent else (fieldOf old target).getD .nil
+    if zero == .check then evalFields p fuel fr rest src old n
+    else
+      match evalConv p fuel { fr with parent := none } cv .nil oldF n with
+      | .ok (nv, n') =>
+        if old.isAbsent && nv.isAbsent then evalFields p fuel fr rest src old n'
+        else evalFields p fuel fr rest src (setField old target nv) n'
+      | .err e => .err e
+      | .panic k => .panic k
+      | .stuck w => .stuck w
+  | .ok (some recv) =>
+    match evalConv p fuel { fr with parent := none } call recv .nil n with
+    | .err e => .err e
+    | .panic k => .panic k
+    | .stuck w => .stuck w
+    | .ok (r, n1) => fieldCont p fuel fr rest src old target false cv zero (methodArg guarded resIsPtr r n1)
+
+theorem evalFields_viaMethod (p : Program) (fuel : Nat) (fr : Frame) (target : S) (path : List S) (derefs : List Bool)
+    (guarded : Bool) (call : Conv) (resIsPtr : Bool) (cv : Conv) (zero : ZeroCheck) (rest : FieldPlans) (src old : Val) (n : Nat)
+    (recv0? : Option Val) (hw : walk path (derefs.take path.length) src = .ok recv0?) :
+    evalFields p (fuel + 1) fr (.cons (.viaMethod target path derefs guarded call resIsPtr cv zero) rest) src old n =
+      viaCont p fuel fr rest src old target (derefs.getLast?.getD false) guarded call resIsPtr cv zero recv0? n := by
+  conv => lhs; unfold evalFields
+  simp only [hw]
+  rfl
+
+theorem evalFields_viaMethod_fail (p : Program) (fuel : Nat) (fr : Frame) (target : S) (path : List S) (derefs : List Bool)
+    (guarded : Bool) (call : Conv) (resIsPtr : Bool) (cv : Conv) (zero : ZeroCheck) (rest : FieldPlans) (src old : Val) (n : Nat)
+    (r : Val × Nat) (hw : ∀ l, walk path (derefs.take path.length) src ≠ .ok l) :
+    evalFields p (fuel + 1) fr (.cons (.viaMethod target path derefs guarded call resIsPtr cv zero) rest) src old n ≠ .ok r := by
+  conv => lhs; unfold evalFields
+  cases h : walk path (derefs.take path.length) src with
+  | ok l => exact absurd h (hw l)
+  | err e => simp [h]
+  | panic k => simp [h]
+  | stuck w => simp [h]
+
+/-- the nil-receiver branch is `fieldCont` on `nil` -/
+theorem viaCont_none_eq (p : Program) (fuel : Nat) (fr : Frame) (rest : FieldPlans) (src old : Val) (target : S) (cv : Conv)
+    (zero : ZeroCheck) (n : Nat) :
+    (let oldF := if old.isAbsent then Val.absent else (fieldOf old target).getD .nil
+     if zero == .check then evalFields p fuel fr rest src old n
+     else
+       match evalConv p fuel { fr with parent := none } cv .nil oldF n with
+       | .ok (nv, n') =>
+         if old.isAbsent && nv.isAbsent then evalFields p fuel fr rest src old n'
+         else evalFields p fuel fr rest src (setField old target nv) n'
+       | .err e => .err e
+       | .panic k => .panic k
+       | .stuck w => .stuck w) = fieldCont p fuel fr rest src old target false cv zero (.nil, n) := by
+  unfold fieldCont
+  cases zero with
+  | none => simp
+  | check => simp [isZeroVal]
+
+theorem walkTy_length (env : TEnv) : ∀ (path : List S) (cur leaf : Ty) (ds : List Bool) (g : Bool),
+    PlanCheck.walkTy env cur path = some (leaf, ds, g) → ds.length = path.length := by
+  intro path
+  induction path with
+  | nil =>
+    intro cur leaf ds g h
+    unfold PlanCheck.walkTy at h
+    simp only [Option.some.injEq, Prod.mk.injEq] at h
+    obtain ⟨_, rfl, _⟩ := h
+    rfl
+  | cons nm rest ih =>
+    intro cur leaf ds g h
+    obtain ⟨ty, ds', g', _, hr, hds, _⟩ := walkTy_cons h
+    subst hds
+    simp [ih ty leaf ds' g' hr]
+
+/-- the receiver is what the specification says (`Recv`) -/
+theorem recv_spec (env : TEnv) {s : Ty} {fs : List (S × Val)} {path : List S} {t0 : Ty} {ds : List Bool} {g : Bool}
+    {r : Option Val} (hwt : WT env (.struct fs) s) (hty : PlanCheck.walkTy env s path = some (t0, ds, g))
+    (hw : walk path ds (.struct fs) = .ok r) :
+    (recvStep (PlanCheck.derefTy env t0).2 r = .ok none ∧ (g || (PlanCheck.derefTy env t0).2) = true ∧
+        Recv env s (.struct fs) path true (PlanCheck.derefTy env t0).1 none) ∨
+    (∃ recv, recvStep (PlanCheck.derefTy env t0).2 r = .ok (some recv) ∧
+        Recv env s (.struct fs) path (g || (PlanCheck.derefTy env t0).2) (PlanCheck.derefTy env t0).1 (some recv)) := by
+  have hpt := walkTy_pathTy env path s t0 ds g hty
+  rcases walk_typed env path s (.struct fs) t0 ds g r hwt hty hw with ⟨rfl, rfl, hpv⟩ | ⟨x, rfl, hx, hpv⟩
+  · rcases ptr_or_not env t0 with ⟨e, hu⟩ | hnp
+    · rw [derefTy_ptr hu]
+      exact .inl ⟨rfl, rfl, .nilOnWay hpt hu hpv⟩
+    · rw [derefTy_nonptr hnp]
+      exact .inl ⟨rfl, rfl, .val hpt hnp hpv⟩
+  · rcases ptr_or_not env t0 with ⟨e, hu⟩ | hnp
+    · rw [derefTy_ptr hu]
+      rcases wt_ptr_inv hx hu with rfl | ⟨l, y, rfl, _⟩
+      · exact .inl ⟨rfl, by simp, .nilRecv hpt hu hpv⟩
+      · refine .inr ⟨y, rfl, ?_⟩
+        have : (g || true) = true := by simp
+        rw [this]
+        exact .deref hpt hu hpv
+    · rw [derefTy_nonptr hnp]
+      refine .inr ⟨x, ?_, ?_⟩
+      · unfold recvStep; simp
+      · have : (g || false) = g := by simp
+        rw [this]
+        exact .val hpt hnp hpv
+
+theorem hasMethod_of_check {env : TEnv} {T : Ty} {n : S} {rty : Ty} (hf : PlanCheck.fieldTyOf env T n = none)
+    (hm : PlanCheck.methodResTy env T n = some rty) : HasMethod env T n rty := by
+  refine ⟨?_, ?_⟩
+  · intro fs f ty hu hfind
+    unfold PlanCheck.fieldTyOf at hf
+    rw [hu] at hf
+    simp [hfind] at hf
+  · unfold PlanCheck.methodResTy at hm
+    split at hm
+    · rename_i id
+      cases hd : env.find id with
+      | none => simp [hd] at hm
+      | some d =>
+        simp only [hd] at hm
+        cases hmd : d.methods.find? (fun (m : MethodDecl) => m.name == n) with
+        | none => simp [hmd] at hm
+        | some md =>
+          simp only [hmd] at hm
+          split at hm
+          · rename_i r hres
+            cases hm
+            exact ⟨id, d, md, rfl, hd, hmd, hres⟩
+          · cases hm
+    · cases hm
+
+/-- the call of a source method without error result: the uninterpreted application to the receiver and context values;
+nothing is allocated -/
+theorem structMethod_call_eval (p : Program) (fuel : Nat) (fr : Frame) (nm : S) (args : List CallArg) (w : Wrap)
+    (recv old : Val) (n : Nat) (r : Val) (n1 : Nat)
+    (h : evalConv p fuel fr (.call (.structMethod nm) args false w) recv old n = .ok (r, n1)) :
+    ∃ ctx, r = .tok nm (recv :: ctx) ∧ n1 = n := by
+  cases fuel with
+  | zero => unfold evalConv at h; cases h
+  | succ fuel =>
+    unfold evalConv at h
+    obtain ⟨argVals, n2, h1, h2⟩ := (E_bind_ok _ _ _ _).1 h
+    have hn2 : n2 = n := filterMapM_loop_state fr recv args [] n argVals n2 h1
+    subst hn2
+    dsimp only at h2
+    simp only [Bool.false_and, Bool.false_eq_true, if_false] at h2
+    have := (E_pure_ok _ _ _).1 h2
+    cases this
+    exact ⟨argVals, rfl, rfl⟩
+
+/-- the values a field conversion receives from a source method: the uninterpreted result, nil, or a pointer to the result -/
+inductive OpaqueArg (env : TEnv) : Val → Ty → Prop
+  | tok {fn args t} : OpaqueArg env (.tok fn args) t
+  | nil {t e} : under env t = .ptr e → OpaqueArg env .nil t
+  | ptrTok {l fn args t e} : under env t = .ptr e → OpaqueArg env (.ptr l (.tok fn args)) t
+
+theorem idConv_tok (p : Program) (fuel : Nat) (fr : Frame) (c : Conv) (s t : Ty) (fn : S) (args : List Val) (old : Val) (n : Nat)
+    (nv : Val) (n1 : Nat) (hid : PlanCheck.isIdConv c = true) (hty : HasTyU p c s t)
+    (hev : evalConv p fuel fr c (.tok fn args) old n = .ok (nv, n1)) :
+    nv = .tok fn args ∧ ImgOnto p.conv.env (CtorSig p) s t (.tok fn args) (erase old) (erase (.tok fn args)) := by
+  cases hty with
+  | identBasic hs ht =>
+    cases fuel with
+    | zero => unfold evalConv at hev; cases hev
+    | succ fuel =>
+      unfold evalConv at hev
+      have := (E_pure_ok _ _ _).1 hev
+      cases this
+      exact ⟨rfl, .tokBasic hs ht⟩
+  | castBasic hs ht =>
+    cases fuel with
+    | zero => unfold evalConv at hev; cases hev
+    | succ fuel =>
+      unfold evalConv at hev
+      cases fuel with
+      | zero => unfold evalConv at hev; cases hev
+      | succ fuel =>
+        unfold evalConv at hev
+        have := (E_pure_ok _ _ _).1 hev
+        cases this
+        exact ⟨rfl, .tokBasic hs ht⟩
+  | callMethod _ => simp [PlanCheck.isIdConv] at hid
+  | ptrPtr _ _ _ => simp [PlanCheck.isIdConv] at hid
+  | tgtPtr _ _ _ => simp [PlanCheck.isIdConv] at hid
+  | srcPtr _ _ _ => simp [PlanCheck.isIdConv] at hid
+  | slice _ _ _ => simp [PlanCheck.isIdConv] at hid
+  | array _ _ _ => simp [PlanCheck.isIdConv] at hid
+  | mapc _ _ _ _ => simp [PlanCheck.isIdConv] at hid
+  | structc _ _ _ _ => simp [PlanCheck.isIdConv] at hid
+
+/-- the conversions accepted after a source method are sound on what the method hands over -/
+theorem opaque_conv_sound (p : Program) (fuel : Nat) (fr : Frame) (cv : Conv) (sty tty : Ty) (a old : Val) (n : Nat)
+    (nv : Val) (n1 : Nat) (hsh : PlanCheck.opaqueShape cv = true) (hty : HasTyU p cv sty tty) (ha : OpaqueArg p.conv.env a sty)
+    (hev : evalConv p fuel fr cv a old n = .ok (nv, n1)) :
+    ImgOnto p.conv.env (CtorSig p) sty tty a (erase old) (erase nv) := by
+  cases hty with
+  | identBasic hs ht =>
+    cases ha with
+    | tok =>
+      obtain ⟨rfl, h⟩ := idConv_tok p fuel fr .ident sty tty _ _ old n nv n1 rfl (.identBasic hs ht) hev
+      exact h
+    | nil h => rw [hs] at h; cases h
+    | ptrTok h => rw [hs] at h; cases h
+  | castBasic hs ht =>
+    cases ha with
+    | tok =>
+      obtain ⟨rfl, h⟩ := idConv_tok p fuel fr (.cast .ident) sty tty _ _ old n nv n1 rfl (.castBasic hs ht) hev
+      exact h
+    | nil h => rw [hs] at h; cases h
+    | ptrTok h => rw [hs] at h; cases h
+  | callMethod _ => simp [PlanCheck.opaqueShape] at hsh
+  | @ptrPtr _ _ se te inner hs ht hin =>
+    have hid : PlanCheck.isIdConv inner = true := by simpa [PlanCheck.opaqueShape] using hsh
+    cases fuel with
+    | zero => unfold evalConv at hev; cases hev
+    | succ fuel =>
+      unfold evalConv at hev
+      cases ha with
+      | tok => cases hev
+      | nil _ =>
+        have := (E_pure_ok _ _ _).1 hev
+        cases this
+        exact .ptrNil hs ht
+      | ptrTok _ =>
+        obtain ⟨v0, n2, h1, h2⟩ := (E_bind_ok _ _ _ _).1 hev
+        obtain ⟨l0, n3, h3, h4⟩ := (E_bind_ok _ _ _ _).1 h2
+        have := (E_pure_ok _ _ _).1 h4
+        cases this
+        obtain ⟨rfl, h⟩ := idConv_tok p fuel _ inner se te _ _ _ n v0 n2 hid hin h1
+        show ImgOnto p.conv.env (CtorSig p) sty tty (.ptr _ (.tok _ _)) (erase old) (.ptr .none (erase (.tok _ _)))
+        exact .ptrPtr hs ht (.inr ⟨64, rfl⟩) h
+  | @tgtPtr _ _ te inner hs ht hin =>
+    have hid : PlanCheck.isIdConv inner = true := by simpa [PlanCheck.opaqueShape] using hsh
+    cases fuel with
+    | zero => unfold evalConv at hev; cases hev
+    | succ fuel =>
+      unfold evalConv at hev
+      obtain ⟨v0, n2, h1, h2⟩ := (E_bind_ok _ _ _ _).1 hev
+      obtain ⟨l0, n3, h3, h4⟩ := (E_bind_ok _ _ _ _).1 h2
+      have := (E_pure_ok _ _ _).1 h4
+      cases this
+      cases ha with
+      | tok =>
+        obtain ⟨rfl, h⟩ := idConv_tok p fuel _ inner sty te _ _ _ n v0 n2 hid hin h1
+        show ImgOnto p.conv.env (CtorSig p) sty tty (.tok _ _) (erase old) (.ptr .none (erase (.tok _ _)))
+        exact .toPtr hs ht (.inr ⟨64, rfl⟩) h
+      | nil h => exact absurd h (hs _)
+      | ptrTok h => exact absurd h (hs _)
+  | @srcPtr _ _ se inner hs ht hin =>
+    have hid : PlanCheck.isIdConv inner = true := by simpa [PlanCheck.opaqueShape] using hsh
+    cases fuel with
+    | zero => unfold evalConv at hev; cases hev
+    | succ fuel =>
+      unfold evalConv at hev
+      cases ha with
+      | tok => cases hev
+      | nil _ =>
+        have := (E_pure_ok _ _ _).1 hev
+        cases this
+        exact .srcNil hs ht
+      | ptrTok _ =>
+        obtain ⟨rfl, h⟩ := idConv_tok p fuel _ inner se tty _ _ _ n nv n1 hid hin hev
+        exact .srcPtr hs ht (.inr ⟨64, rfl⟩) h
+  | slice _ _ _ => simp [PlanCheck.opaqueShape] at hsh
+  | array _ _ _ => simp [PlanCheck.opaqueShape] at hsh
+  | mapc _ _ _ _ => simp [PlanCheck.opaqueShape] at hsh
+  | structc _ _ _ _ => simp [PlanCheck.opaqueShape] at hsh
+
+/-- the handed value is what the specification says (`MethodSrc`) -/
+theorem methodArg_spec (env : TEnv) {s : Ty} {v : Val} {path : List S} {c : Bool} {T rty : Ty} {nm : S} {recv : Val}
+    {ctx : List Val} {rp : Bool} (n1 : Nat) (hr : Recv env s v path c T (some recv)) (hm : HasMethod env T nm rty)
+    (hrp : rp = (isPtr env rty).isSome) :
+    MethodSrc env s v path nm (PlanCheck.fieldArgTy c rp rty) (methodArg c rp (.tok nm (recv :: ctx)) n1).1 ∧
+      OpaqueArg env (methodArg c rp (.tok nm (recv :: ctx)) n1).1 (PlanCheck.fieldArgTy c rp rty) := by
+  cases c with
+  | false =>
+    simp only [methodArg, PlanCheck.fieldArgTy, Bool.false_and, Bool.false_eq_true, if_false, Bool.not_false, Bool.true_or, if_true]
+    exact ⟨.direct hr hm, .tok⟩
+  | true =>
+    cases hp : isPtr env rty with
+    | some e =>
+      have hl : rp = true := by rw [hrp, hp]; rfl
+      subst hl
+      simp only [methodArg, PlanCheck.fieldArgTy, Bool.not_true, Bool.and_false, Bool.false_eq_true, if_false, Bool.or_true, if_true]
+      exact ⟨.resPtr hr hm (isPtr_some hp), .tok⟩
+    | none =>
+      have hl : rp = false := by rw [hrp, hp]; rfl
+      subst hl
+      simp only [methodArg, PlanCheck.fieldArgTy, Bool.not_false, Bool.and_true, if_true, Bool.not_true, Bool.or_false,
+        Bool.false_eq_true, if_false]
+      exact ⟨.wrapped hr hm (isPtr_none hp), .ptrTok (under_ptr env rty)⟩
+
+theorem methodNil_spec (env : TEnv) {s : Ty} {v : Val} {path : List S} {T rty : Ty} {nm : S} {rp : Bool}
+    (hr : Recv env s v path true T none) (hm : HasMethod env T nm rty) (hrp : rp = (isPtr env rty).isSome) :
+    MethodSrc env s v path nm (PlanCheck.fieldArgTy true rp rty) .nil ∧ OpaqueArg env .nil (PlanCheck.fieldArgTy true rp rty) := by
+  cases hp : isPtr env rty with
+  | some e =>
+    have hl : rp = true := by rw [hrp, hp]; rfl
+    subst hl
+    simp only [PlanCheck.fieldArgTy, Bool.not_true, Bool.or_true, if_true]
+    exact ⟨.nilPtr hr hm (isPtr_some hp), .nil (isPtr_some hp)⟩
+  | none =>
+    have hl : rp = false := by rw [hrp, hp]; rfl
+    subst hl
+    simp only [PlanCheck.fieldArgTy, Bool.not_true, Bool.or_false, Bool.false_eq_true, if_false]
+    exact ⟨.nil hr hm (isPtr_none hp), .nil (under_ptr env rty)⟩
+
 theorem stFieldsU_step (p : Program) (fuel : Nat) (ihc : StConvU p fuel) (ihf : StFieldsU p fuel) : StFieldsU p (fuel + 1) := by
   intro fr plans s tfs src fs cur orig n v' n' hty hwt hsrc hnd hold hag hev
   cases hty with
@@ -823,61 +1221,105 @@ theorem stFieldsU_step (p : Program) (fuel : Nat) (ihc : StConvU p fuel) (ihf : 
       generalize fieldArg guarded lp r n = argv at hev hFS hWT
       obtain ⟨a, n2⟩ := argv
       simp only [] at hFS hWT
-      unfold fieldCont at hev
-      have habs : (Val.struct cur).isAbsent = false := rfl
-      have hlook : fieldOf (.struct cur) tf.name = cur.lookup tf.name := rfl
-      simp only [habs, hlook, Bool.false_and, if_false, Bool.false_eq_true] at hev
-      -- the previous value of the field
       have holdF : OldOK p.conv.env ((cur.lookup tf.name).getD .nil) tty := by
         cases hc : cur.lookup tf.name with
         | none => exact .nil
         | some o => exact hold tf.name o tf tty hc (by simp [List.find?])
-      have horig : (erase.eraseFields orig).lookup tf.name = (cur.lookup tf.name).map erase := by
-        rw [lookup_eraseFields, hag tf.name (by simp [fieldNames])]
-      have holdE : ((erase.eraseFields orig).lookup tf.name).getD .nil = erase ((cur.lookup tf.name).getD .nil) := by
-        rw [horig]
-        cases cur.lookup tf.name <;> rfl
-      -- what happens when the field is assigned
-      have assigned : ∀ (fr' : Frame) (nv : Val) (n1 : Nat),
-          evalConv p fuel fr' cv a ((cur.lookup tf.name).getD .nil) n2 = .ok (nv, n1) →
-          evalFields p fuel fr rest src (setField (.struct cur) tf.name nv) n1 = .ok (v', n') →
-          ∃ ws y, v' = .struct ws ∧ (∀ name, name ∉ fieldNames ((tf, tty) :: tfs') → ws.lookup name = cur.lookup name) ∧
-            (erase.eraseFields ws).lookup tf.name = some y ∧
-            ImgOnto p.conv.env (CtorSig p) (PlanCheck.fieldArgTy guarded lp leaf) tty a
-              (((erase.eraseFields orig).lookup tf.name).getD .nil) y ∧
-            ImgFieldsOnto p.conv.env (CtorSig p) (modesOf rest) s (.struct fs) tfs' (erase.eraseFields orig) (erase.eraseFields ws) := by
-        intro fr' nv n1 hc hev'
-        have himg := ihc fr' cv _ tty a _ n2 nv n1 hcv hWT holdF hc
-        obtain ⟨ws, hv', hframe, hself, hrestImg⟩ := fields_assigned p fuel ihf hrest hwt hsrc' hnd hold hag hev'
-        exact ⟨ws, erase nv, hv', hframe, hself, by rw [holdE]; exact himg, hrestImg⟩
+      obtain ⟨ws, hv', hframe, hrestImg, hcase⟩ := fieldCont_sound p fuel ihf hrest hwt hsrc' hnd hold hag
+        (fun fr' nv n1 hc => ihc fr' cv _ tty a _ n2 nv n1 hcv hWT holdF hc) hev
+      refine ⟨ws, hv', hframe, ?_⟩
       cases z with
       | none =>
-        have hz : (ZeroCheck.none == ZeroCheck.check) = false := by decide
-        simp only [hz, Bool.false_and, if_false, Bool.false_eq_true] at hev
-        split at hev
-        · rename_i nv n1 hc
-          obtain ⟨ws, y, hv', hframe, hself, himg, hrestImg⟩ := assigned _ nv n1 hc hev
-          exact ⟨ws, hv', hframe, .assign hFS hself himg hrestImg⟩
-        · cases hev
-        · cases hev
-        · cases hev
+        rcases hcase with ⟨h, _, _⟩ | ⟨_, y, hy, himg⟩
+        · cases h
+        · exact .assign hFS hy himg hrestImg
       | check =>
-        have hz : (ZeroCheck.check == ZeroCheck.check) = true := by decide
-        simp only [hz, Bool.true_and] at hev
-        cases hzv : isZeroVal a with
-        | true =>
-          simp only [hzv, if_true] at hev
-          obtain ⟨ws, hv', hframe, hkeep, himg⟩ := fields_kept p fuel ihf hrest hwt hsrc' hnd hold hag hev
-          exact ⟨ws, hv', hframe, .zeroKept hFS hzv hkeep himg⟩
-        | false =>
-          simp only [hzv, Bool.false_eq_true, if_false] at hev
-          split at hev
-          · rename_i nv n1 hc
-            obtain ⟨ws, y, hv', hframe, hself, himg, hrestImg⟩ := assigned _ nv n1 hc hev
-            exact ⟨ws, hv', hframe, .nonZero hFS (by unfold IsZeroValue; simp [hzv]) hself himg hrestImg⟩
-          · cases hev
-          · cases hev
-          · cases hev
+        rcases hcase with ⟨_, hz, hk⟩ | ⟨h, y, hy, himg⟩
+        · exact .zeroKept hFS hz hk hrestImg
+        · rcases h with h | h
+          · cases h
+          · exact .nonZero hFS (by unfold IsZeroValue; simp [h]) hy himg hrestImg
+  | @viaMethod _ tf tty path ds g t0 nm args w rp rty cv rest tfs' z hwalk hnf hmr hrp hargs hsh hcv hrest =>
+    obtain ⟨sfs, hs⟩ := wt_struct_ty hwt
+    have hsrc' : src = .struct fs ∨ ((∃ l, src = .ptr l (.struct fs)) ∧ noWholeSource rest = true) := by
+      rcases hsrc with h | ⟨h1, h2⟩
+      · exact .inl h
+      · refine .inr ⟨h1, ?_⟩
+        simp only [noWholeSource, Bool.and_eq_true] at h2
+        exact h2.2
+    have hlen := walkTy_length p.conv.env path s t0 ds g hwalk
+    have htake : (ds ++ [(PlanCheck.derefTy p.conv.env t0).2]).take path.length = ds := by
+      rw [← hlen]; simp
+    have hlast : (ds ++ [(PlanCheck.derefTy p.conv.env t0).2]).getLast?.getD false = (PlanCheck.derefTy p.conv.env t0).2 := by
+      simp
+    have hwsrc : walk path ds src = walk path ds (.struct fs) := by
+      rcases hsrc with h | ⟨⟨l, h1⟩, h2⟩
+      · rw [h]
+      · subst h1
+        cases path with
+        | nil => simp [noWholeSource] at h2
+        | cons nm' ps =>
+          obtain ⟨ds', hds⟩ := walkTy_first hs hwalk
+          subst hds
+          exact walk_field_ptrsrc
+    have hHM := hasMethod_of_check hnf hmr
+    have holdF : OldOK p.conv.env ((cur.lookup tf.name).getD .nil) tty := by
+      cases hc : cur.lookup tf.name with
+      | none => exact .nil
+      | some o => exact hold tf.name o tf tty hc (by simp [List.find?])
+    cases hw : walk path ds (.struct fs) with
+    | err e => exact absurd hev (evalFields_viaMethod_fail p fuel fr _ _ _ _ _ _ _ _ _ _ _ _ _ (fun l hl => by rw [htake, hwsrc, hw] at hl; cases hl))
+    | panic k => exact absurd hev (evalFields_viaMethod_fail p fuel fr _ _ _ _ _ _ _ _ _ _ _ _ _ (fun l hl => by rw [htake, hwsrc, hw] at hl; cases hl))
+    | stuck w' => exact absurd hev (evalFields_viaMethod_fail p fuel fr _ _ _ _ _ _ _ _ _ _ _ _ _ (fun l hl => by rw [htake, hwsrc, hw] at hl; cases hl))
+    | ok r =>
+      rw [evalFields_viaMethod p fuel fr tf.name path _ _ _ rp cv z rest src (.struct cur) n r (by rw [htake, hwsrc, hw]), hlast] at hev
+      unfold viaCont at hev
+      -- the two outcomes of reaching the receiver
+      have finish : ∀ (a : Val) (n2 : Nat),
+          MethodSrc p.conv.env s (.struct fs) path nm
+            (PlanCheck.fieldArgTy (g || (PlanCheck.derefTy p.conv.env t0).2) rp rty) a →
+          OpaqueArg p.conv.env a (PlanCheck.fieldArgTy (g || (PlanCheck.derefTy p.conv.env t0).2) rp rty) →
+          fieldCont p fuel fr rest src (.struct cur) tf.name false cv z (a, n2) = .ok (v', n') →
+          ∃ ws, v' = .struct ws ∧ (∀ name, name ∉ fieldNames ((tf, tty) :: tfs') → ws.lookup name = cur.lookup name) ∧
+            ImgFieldsOnto p.conv.env (CtorSig p)
+              (modesOf (.cons (.viaMethod tf.name path (ds ++ [(PlanCheck.derefTy p.conv.env t0).2])
+                (g || (PlanCheck.derefTy p.conv.env t0).2) (.call (.structMethod nm) args false w) rp cv z) rest))
+              s (.struct fs) ((tf, tty) :: tfs') (erase.eraseFields orig) (erase.eraseFields ws) := by
+        intro a n2 hMS hOA hev'
+        obtain ⟨ws, hv', hframe, hrestImg, hcase⟩ := fieldCont_sound p fuel ihf hrest hwt hsrc' hnd hold hag
+          (fun fr' nv n1 hc => opaque_conv_sound p fuel fr' cv _ tty a _ n2 nv n1 hsh hcv hOA hc) hev'
+        refine ⟨ws, hv', hframe, ?_⟩
+        cases z with
+        | none =>
+          rcases hcase with ⟨h, _, _⟩ | ⟨_, y, hy, himg⟩
+          · cases h
+          · exact .assignM hMS hy himg hrestImg
+        | check =>
+          rcases hcase with ⟨_, hz, hk⟩ | ⟨h, y, hy, himg⟩
+          · exact .zeroKeptM hMS hz hk hrestImg
+          · rcases h with h | h
+            · cases h
+            · exact .nonZeroM hMS (by unfold IsZeroValue; simp [h]) hy himg hrestImg
+      rcases recv_spec p.conv.env hwt hwalk hw with ⟨hrs, hg, hrecv⟩ | ⟨recv, hrs, hrecv⟩
+      · rw [hrs] at hev
+        simp only [] at hev
+        rw [viaCont_none_eq] at hev
+        rw [hg] at finish
+        obtain ⟨hMS, hOA⟩ := methodNil_spec p.conv.env hrecv hHM hrp
+        rw [hg]
+        exact finish .nil n hMS hOA hev
+      · rw [hrs] at hev
+        simp only [] at hev
+        split at hev
+        · cases hev
+        · cases hev
+        · cases hev
+        · rename_i rr n1 hcall
+          obtain ⟨ctx, rfl, rfl⟩ := structMethod_call_eval p fuel _ nm args w recv .nil n rr n1 hcall
+          obtain ⟨hMS, hOA⟩ := methodArg_spec p.conv.env (ctx := ctx) n1 hrecv hHM hrp
+          generalize methodArg (g || (PlanCheck.derefTy p.conv.env t0).2) rp (.tok nm (recv :: ctx)) n1 = argv at hev hMS hOA
+          obtain ⟨a, n2⟩ := argv
+          exact finish a n2 hMS hOA hev
 
 /-! ### the plan nodes -/
 
